@@ -6,6 +6,7 @@ pub mod c16unit;
 pub mod c17;
 pub mod c19;
 pub mod c20;
+pub mod c20k;
 pub mod concprops;
 pub mod crashprops;
 pub mod seqprops;
@@ -161,10 +162,37 @@ pub fn dispatch(id: &str, tier: Tier, seed: u64, replay: Option<&str>) -> i32 {
         "C17" => c17::run(tier, seed, replay),
         "C09" => c09::run(tier, seed, replay),
         "C19" => c19::run(tier, seed, replay),
-        "C07" => concprops::run("C07", tier, seed, replay),
+        "C07" => {
+            if let Some(path) = replay {
+                let text = std::fs::read_to_string(path).unwrap_or_default();
+                if text.contains("conc:C07M") {
+                    return concprops::replay_sub("C07M", path);
+                }
+                return concprops::run("C07", tier, seed, replay);
+            }
+            let code = concprops::run("C07", tier, seed, None);
+            let (mcode, mev) = concprops::run_campaign("C07M", "C07", tier, seed);
+            fold_into_evidence("C07", "explicit_future_timestamps_racing_automatic_ones", concprops::sub_summary(&mev), "executions", mcode);
+            code.max(mcode)
+        }
         "C08" => concprops::run("C08", tier, seed, replay),
         "C18" => concprops::run("C18", tier, seed, replay),
-        "C20" => c20::run(tier, seed, replay),
+        "C20" => {
+            if let Some(path) = replay {
+                let text = std::fs::read_to_string(path).unwrap_or_default();
+                if text.contains("\"slow_device\"") {
+                    return c20k::replay(path);
+                }
+            }
+            c20::run(tier, seed, replay)
+        }
+        "C20K" => {
+            // the slow-device stage of C20 alone; prints its summary as one JSON line (used by the
+            // ASan run of C20, which starts this uninstrumented binary for it)
+            let (code, summary) = c20k::campaign(tier, seed);
+            println!("C20K-SUMMARY {}", serde_json::to_string(&summary).unwrap_or_default());
+            code
+        }
         "C04-MASS" => {
             // development entry: the mass-retirement stage of C04 alone (writes no evidence)
             let (code, summary) = synthrec::mass_campaign("C04", tier, seed);
